@@ -123,8 +123,11 @@ PROVED = {
          "identical tag sequence (values keep their meaning: decoded values are proved to lie in the range the encoders invert, incl. widened f32). "
          "C02_fixpoint_cut_partial / C02_fixpoint_prefix_partial (Proofs/FixpointCut.v): the same for streams cut on a tag boundary, whose known-size "
          "masters declare more bytes than are present (read without error: EOF closes the open masters) — the re-written output is the complete document "
-         "with the actual sizes, and reads back as the same tags; for every prefix of a conforming document that ends on a tag boundary. Hypothesis: the "
-         "re-encoding's sizes stay below 2^56-1 and the reader's size limit. Restricted to placeholder-free declared paths; global elements and reader/"
+         "with the actual sizes, and reads back as the same tags; for every prefix of a conforming document that ends on a tag boundary. "
+         "C02_fixpoint_known_partial (Proofs/FixpointKnown.v): the same fixpoint for the second document class (every master of known size, declared "
+         "paths with global placeholders: global elements at any depth, recursive masters); C02_canon_idempotent / C02_rewrite_stable: after one round "
+         "the output is canonical — re-writing the second read gives byte-identical output (both classes). Hypothesis: the "
+         "re-encoding's sizes stay below 2^56-1 and the reader's size limit. Global elements below unknown-size masters (inherently ambiguous) and reader/"
          "writer validator agreement on arbitrary accepted streams are covered by the correspondence run (read-write-read on mutated/hand-crafted streams).", ""),
  "C06": ("Theorems: (Proofs/Nesting.v) C06_strict_items_well_nested — for every strict configuration (unknown ids and hierarchy errors not tolerated, "
          "nothing buffered), every byte input and every sequence of next()/try_recover()/drain operations, the successfully emitted tags are accepted "
@@ -173,14 +176,15 @@ PROVED = {
          "C12_every_cut_known_partial (Proofs/PartialKnown.v) — every master of known size with declared paths that may contain global placeholders "
          "(global elements at any depth, recursive masters). Only unknown-size masters combined with global placeholders (inherently ambiguous) are "
          "left to the correspondence run, which cuts generated documents with global elements at every byte position.", ""),
- "C14": ("Theorems (Proofs/Recover.v): C14_damaged_run_partial — for every strict configuration and every document with a run of junk inserted "
-         "between two tags at any nesting depth (masters of known or unknown size), if the following tag still fits inside every enclosing known-size "
-         "master after the shift and no header check passes at any junk position, then next() yields the tags before the junk unchanged, exactly one "
-         "error, try_recover() succeeds (it walks exactly over the junk and enlarges every open known-size master by the skipped distance) and all "
-         "remaining tags follow; C14_recovery_loses_nothing_partial — the tag sequence, error and recovery aside, equals that of the undamaged document; "
-         "try_recover never moves backwards and fails only with end of input (all states). Header checks are shown to depend only on the parse fields "
-         "of the state. PARTIAL: placeholder-free declared paths; the junk condition is semantic (per position), the generator of the correspondence run "
-         "draws junk from byte classes without ids in the specification and computes the premise independently.", ""),
+ "C14": ("Theorems (Proofs/Recover.v, RecoverKnown.v): C14_damaged_run_partial — for every strict configuration and every document with a run of junk "
+         "inserted between two tags at any nesting depth (masters of known or unknown size), if the following tag still fits inside every enclosing "
+         "known-size master after the shift and no header check passes at any junk position, then next() yields the tags before the junk unchanged, "
+         "exactly one error, try_recover() succeeds (it walks exactly over the junk and enlarges every open known-size master by the skipped distance) and "
+         "all remaining tags follow; C14_recovery_loses_nothing_partial — the tag sequence, error and recovery aside, equals that of the undamaged "
+         "document; both also for the second document class (all masters of known size, declared paths with global placeholders: "
+         "C14_damaged_run_known_partial, C14_recovery_loses_nothing_known_partial); try_recover never moves backwards and fails only with end of input "
+         "(all states). Header checks are shown to depend only on the parse fields of the state. The junk condition is semantic (per position); the "
+         "generator of the correspondence run draws junk from byte classes without ids in the specification and computes the premise independently.", ""),
  "C20": ("PARTIAL + known finding D15. C20_ahead_partial / C20_ahead_blocking (Proofs/AsyncAhead.v): on every schedule that keeps the delivered data "
          "ahead of the parser (after each call at least 16 unread delivered bytes remain and no end-of-file error is queued, or the source is exhausted; "
          "Fail-free script; a computable criterion aheadb over the model's run) the non-blocking iterator yields exactly the abstract reader's run = the "
